@@ -1381,7 +1381,10 @@ class CodeGenerator(NodeVisitor):
         self.buffer(filter_frame)
         self.blockvisit(node.body, filter_frame)
         self.start_write(frame, node)
+        # The filter may turn the safe buffer contents into a plain string.
+        self.write("(escape if context.eval_ctx.autoescape else identity)(")
         self.visit_Filter(node.filter, filter_frame)
+        self.write(")")
         self.end_write(frame)
         self.leave_frame(filter_frame)
 
@@ -1645,10 +1648,12 @@ class CodeGenerator(NodeVisitor):
         self.blockvisit(node.body, block_frame)
         self.newline(node)
         self.visit(node.target, frame)
-        self.write(" = (Markup if context.eval_ctx.autoescape else identity)(")
         if node.filter is not None:
+            # The filter may turn the safe buffer contents into a plain string.
+            self.write(" = (escape if context.eval_ctx.autoescape else identity)(")
             self.visit_Filter(node.filter, block_frame)
         else:
+            self.write(" = (Markup if context.eval_ctx.autoescape else identity)(")
             self.write(f"concat({block_frame.buffer})")
         self.write(")")
         self.pop_assign_tracking(frame)
